@@ -230,7 +230,7 @@ def _judge_labels(r, tag, labels, centers_idx, centers, P, w, adm):
     return True
 
 
-def _fit(P, w, cut=None, shell=None, cell=None, scale=1.0):
+def _fit(P, w, cut=None, shell=None, cell=None, scale=1.0, used=False):
     from skmatter.clustering import QuickShift
 
     kw = {}
@@ -240,6 +240,8 @@ def _fit(P, w, cut=None, shell=None, cell=None, scale=1.0):
         m = QuickShift(dist_cutoff_sq=np.array(cut, float), scale=scale, **kw)
     else:
         m = QuickShift(gabriel_shell=shell, **kw)
+    if used:  # a USED estimator: fitted before on the mirrored points with reversed weights
+        m.fit(np.array(P, float)[::-1] * -1.0 + 0.5, samples_weight=np.array(w, float)[::-1].copy())
     m.fit(np.array(P, float), samples_weight=np.array(w, float))
     return m
 
@@ -269,7 +271,7 @@ def check(case):
     def run(tag, adm, **kw):
         nonlocal n_multi, n_moved
         try:
-            m = _fit(P, w, cell=cell, **kw)
+            m = _fit(P, w, cell=cell, used=bool(rank[0] % 2), **kw)  # every other ranking on a USED estimator
         except Exception as e:
             r.fail("crash:%s" % type(e).__name__, "%s: %r" % (tag, e))
             return None
